@@ -459,6 +459,15 @@ func (g *c11Gen) step() bool {
 		g.w("%s = []%s{%s}\n", v, g.T, strings.Join(xs, ", "))
 		g.views[v] = g.fresh(n)
 		g.feat["indexed-literal"] = true
+	case op < 5: // the copy idiom: a conversion of nil is the nil slice of that type
+		g.w("%s = append([]%s(nil), %s...)\n", v, g.T, u)
+		nv := g.fresh(uv.ln)
+		nv.exact = false // the capacity of the new array depends on the growth policy
+		if uv.ln == 0 {
+			nv = &c11View{arr: -1, exact: true}
+		}
+		g.views[v] = nv
+		g.feat["copy-idiom-append-to-converted-nil"] = true
 	case op < 10:
 		n := r.Intn(6)
 		var xs []string
@@ -631,7 +640,10 @@ func c11Program(r *RNG) (GoProg, map[string]bool) {
 	g := &c11Gen{r: r, T: Pick(r, []string{"int", "int", "byte", "float64", "string"}), views: map[string]*c11View{}, feat: map[string]bool{}}
 	g.names = []string{"a", "b", "c", "d"}[:2+r.Intn(3)]
 	g.feat["elem-"+g.T] = true
-	g.w("func show(n string, s []%s) {\n\tprintln(n, len(s))\n\tfor _, x := range s {\n\t\tprintln(x)\n\t}\n}\n\n", g.T)
+	// every element is printed together with a use that shows its type (an element written through any path has the
+	// slice's element type: division, wrap-around, concatenation)
+	reveal := map[string]string{"int": "x/2", "byte": "x+200", "float64": "x/2", "string": "x+\"!\""}[g.T]
+	g.w("func show(n string, s []%s) {\n\tprintln(n, len(s))\n\tfor _, x := range s {\n\t\tprintln(x, %s)\n\t}\n}\n\n", g.T, reveal)
 	g.w("func put(s []%s, k int, x %s) {\n\ts[k] = x\n}\n\n", g.T, g.T)
 	g.w("func app(s []%s, x %s) []%s {\n\treturn append(s, x)\n}\n\n", g.T, g.T, g.T)
 	g.w("func pass(xs ...%s) []%s {\n\treturn xs\n}\n\n", g.T, g.T)
